@@ -25,10 +25,14 @@ class Cz:
     # merge decision changes and a merged event is longer by exactly the same amount): durations with a sub-millisecond
     # part go through the store and through heartbeat_reduce
     eps = timedelta(0)
+    iso = False
 
     def ev(self, e, Event):
         data = {"v": e["d"]} if e["d"] != "c" else {"v": "a", "extra": [1]}      # "c" equals "a" except for one more key
-        return Event(timestamp=self.c.dt(e["ts"]), duration=self.c.td(e["dur"]) + self.eps, data=data)
+        ts = self.c.dt(e["ts"])          # an aware datetime at a random UTC offset ...
+        if self.iso and (e["ts"] + len(data)) % 2 == 0:
+            ts = ts.isoformat()          # ... or the same instant as an ISO string carrying that offset
+        return Event(timestamp=ts, duration=self.c.td(e["dur"]) + self.eps, data=data)
 
     def pul(self, p2):          # pulsetime in half-ticks -> seconds
         return p2 * self.c.scale / 2000.0
@@ -132,6 +136,7 @@ def run_loop(ds, kind, rnd, uniq, stream, p2):
     from aw_transform import heartbeat_merge, heartbeat_reduce
     cz = Cz(rnd)
     cz.eps = timedelta(microseconds=rnd.choice([0, 0, 0, 4, 996, 500, 123]))
+    cz.iso = rnd.random() < 0.4
     bn, sn = "hb-%s" % uniq, "hbspect-%s" % uniq
     spect = ds.create_bucket(sn, "t", "c", "h")
     # the spectator shares start and end instants with the stream
